@@ -476,6 +476,117 @@ def run_deviations(ctx):
         _t.cleanup(res)
 
 
+# ---------------------------------------------------------------------------------------------------------------
+# code -> spec: recorded executions validated by TLC against TraceSamplesOps.tla
+def validate_events(ctx, events, source):
+    """All events must be transitions of the spec; returns the number of accepted events."""
+    import json, os, re
+    from cuqiverif import tlc as _t
+    from cuqiverif.core import MachineryError
+    accepted = 0
+    rest = list(events)
+    for _round in range(6):
+        if not rest:
+            break
+        os.makedirs(_t.WORK, exist_ok=True)
+        path = os.path.join(_t.WORK, "c19-trace-%d-%d.json" % (os.getpid(), _round))
+        json.dump(rest, open(path, "w"))
+        try:
+            res = ctx.tlc("TraceSamplesOps", cfg="TraceSamplesOps.cfg", workers=1, timeout=900, env={"TRACE_FILE": path})
+        finally:
+            os.remove(path)
+        if res.ok:
+            if res.distinct != len(rest) + 1:
+                raise MachineryError("trace validation explored %d states for %d events" % (res.distinct, len(rest)))
+            accepted += len(rest)
+            _t.cleanup(res)
+            break
+        if res.violated != "Conforms":
+            raise MachineryError("trace validation failed with %r" % (res.violated,))
+        idx = [int(x) for x in re.findall(r"^/?\\?\s*i = (\d+)", res.stdout, re.M)] or [int(x) for x in re.findall(r"\bi = (\d+)", res.stdout)]
+        _t.cleanup(res)
+        if not idx:
+            raise MachineryError("cannot locate the rejected event in TLC's output")
+        k = idx[-1] - 1
+        e = rest[k]
+        accepted += k
+        ctx.mismatch("trace/%s/%s/n=%d/par=%d/vec=%d/b=%d/t=%d" % (source, e["op"], e["pre"]["n"], e["pre"]["par"], e["pre"]["vec"], e["b"], e["t"]),
+                     {"kind": "trace", "source": source, "event": {k2: (v if k2 != "cols" else v[:50]) for k2, v in e.items()}},
+                     "a recorded call is not a transition of SamplesOps (TraceSamplesOps rejects the event)",
+                     expected="IsEvent", observed={k2: (v if k2 != "cols" else v[:50]) for k2, v in e.items()})
+        rest = rest[k + 1:]
+    return accepted
+
+
+def run_traces(ctx):
+    import json, os, subprocess, sys
+    from cuqiverif import c19_trace as T
+    from cuqiverif import tlc as _t
+    from cuqiverif.core import MachineryError
+    if not T.install():
+        raise MachineryError("Samples.burnthin / funvals / vector / parameters not found: recorder targets disappeared")
+    try:
+        del T.EVENTS[:]
+        with contextlib.redirect_stdout(io.StringIO()):
+            T.random_driver(ctx.seed, 300 if ctx.tier == "quick" else 3000)
+        events = list(T.EVENTS)
+    finally:
+        T.uninstall()
+    if not events:
+        raise MachineryError("the random driver recorded no events")
+    acc = validate_events(ctx, events, "driver")
+    ctx.observe("trace_events_random_driver", len(events))
+    if ctx.tier == "thorough":
+        import cuqi
+        repo = os.path.dirname(os.path.dirname(os.path.realpath(cuqi.__file__)))
+        os.makedirs(_t.WORK, exist_ok=True)
+        out = os.path.join(_t.WORK, "c19-pytest-events-%d.json" % os.getpid())
+        env = dict(os.environ, C19_TRACE_OUT=out, MPLBACKEND="Agg",
+                   PYTHONPATH=os.pathsep.join([repo, os.path.join(_t.ROOT, "harness")]), PYTHONDONTWRITEBYTECODE="1")
+        p = subprocess.run([sys.executable, "-m", "pytest", "-q", "-p", "no:cacheprovider", "-p", "cuqiverif.c19_trace", "-W", "ignore",
+                            "tests/test_samples.py", "tests/test_geometry.py"], cwd=repo, env=env, stdout=subprocess.PIPE,
+                           stderr=subprocess.STDOUT, text=True, timeout=1800)
+        if not os.path.exists(out):
+            raise MachineryError("recording the repository tests produced no event file:\n" + p.stdout[-1500:])
+        data = json.load(open(out))
+        os.remove(out)
+        if "error" in data:
+            raise MachineryError(data["error"])
+        ev2 = data["events"]
+        ctx.observe("trace_events_repo_tests", {"events": len(ev2), "skipped": data["skipped"], "pytest_exit": p.returncode})
+        if not ev2:
+            raise MachineryError("the repository tests recorded no Samples events")
+        acc += validate_events(ctx, ev2, "repo_tests")
+    return acc
+
+
+def _replay_event(e):
+    """Re-execute a recorded (rejected) call on a fresh random object of the recorded size and re-record it."""
+    import cuqi
+    from cuqi.samples import Samples
+    from cuqiverif import c19_trace as T
+    from cuqiverif.core import MachineryError
+    n = e["pre"]["n"]
+    if e["pre"]["par"]:
+        s = Samples(np.random.RandomState(1).standard_normal((3, n)))
+    elif e["pre"]["fun1d"]:
+        s = Samples(np.random.RandomState(1).standard_normal((3, n)), is_par=False, is_vec=True)
+    else:
+        s = Samples(np.random.RandomState(1).standard_normal((2, 3, n)), geometry=cuqi.geometry.Image2D((2, 3)), is_par=False,
+                    is_vec=e["pre"]["vec"])
+    if not T.install():
+        raise MachineryError("recorder targets disappeared")
+    try:
+        del T.EVENTS[:]
+        try:
+            s.burnthin(e["b"], e["t"]) if e["op"] == "burnthin" else getattr(s, e["op"])
+        except Exception:       # noqa: BLE001
+            pass
+        return T.EVENTS[0]
+    finally:
+        T.uninstall()
+
+
 _GRAPHS = {}
 
 
@@ -511,6 +622,7 @@ def run(ctx, only=None):
             ne, nw = replay_config(ctx, graph, ck, n_walks, rng)
         tot_e += ne
         tot_w += nw
+    n_trace = run_traces(ctx) if only is None else 0
     some = sorted(graph.nodes)[len(graph.nodes) // 2]
     nd = graph.nodes[some]
     ctx.sample({"node": {"c": nd["c"], "obj": nd["obj"], "stats[0]": nd["stats"][0], "arviz": nd["arviz"]}})
@@ -524,7 +636,8 @@ def run(ctx, only=None):
                 "(configuration, object) for statistics and per (configuration, object, arviz entry point, kwargs) for the "
                 "hand-over; every transition of the reachable graph is replayed from a real object reached by real calls")
     ctx.exhaustive = True
-    ctx.traces = tot_e + tot_w
+    ctx.traces = tot_e + tot_w + n_trace
+    ctx.observe("trace_events_accepted", n_trace)
     ctx.observe("edges_replayed", tot_e)
     ctx.observe("random_chains_of_3", tot_w)
     ctx.assumptions += ["chain lengths, burn-in / thinning boxes, geometry kinds and credibility levels bounded by the cfg",
@@ -536,4 +649,6 @@ def run(ctx, only=None):
 def replay(ctx, case):
     if case.get("kind") == "model":
         return run(ctx)
+    if case.get("kind") == "trace":
+        return validate_events(ctx, [_replay_event(case["event"])], case.get("source", "replay"))
     return run(ctx, only=ckey(case["c"]))
